@@ -73,7 +73,9 @@ func tsText(ms int64, present bool) string {
 // canonical text of an expected sample
 func wantText(s sample) string {
 	ts := tsText(0, false)
-	if s.TS != 0 {
+	if s.TS == -1 { // the timestamp 0 itself (the epoch)
+		ts = tsText(0, true)
+	} else if s.TS != 0 {
 		ts = tsText((expo.BaseTime+int64(s.TS))*1000, true)
 	}
 	var b strings.Builder
